@@ -369,7 +369,7 @@ Loop:
 }
 
 func isTerminator(r rune) bool {
-	return isSep(r) || r == ';' || r == '{' || r == '"' || r == '}'
+	return r == eof || isSep(r) || r == ';' || r == '{' || r == '"' || r == '}'
 }
 
 func isSep(r rune) bool {
